@@ -202,8 +202,16 @@ func runC10(p *P, r *R) {
 	for _, f := range prod {
 		prodNames = append(prodNames, p.fname(f))
 	}
+	mNotify := mOr(p.mCall(prodNames...), p.mCall("(*Session).waitForSend", "(*Session).waitForSendErr"))
 	isPeerNotify := func(in ssa.Instruction) bool {
-		return p.mCall(prodNames...).F(in) || p.mCall("(*Session).waitForSend", "(*Session).waitForSendErr").F(in)
+		if mNotify.F(in) {
+			return true
+		}
+		// a helper of the close routine that notifies on every path
+		if g := p.localCallee(in); g != nil && inFns(g, p.family(closeFn)) && p.must(g, mNotify, 1) {
+			return true
+		}
+		return false
 	}
 	res := p.mustPass(closeFn, []Point{{winStart, -1}}, isClean.F, nil, nil)
 	r.ob("R10.3", "(*Stream).close: the CAS winner always cleans (table removal, buffers)", p.pos(closeFn.Pos()), res.OK, true, "%s", p.pathString(res))
@@ -265,9 +273,11 @@ func runC10(p *P, r *R) {
 	r.ob("R10.3", "(*Stream).close: at most one close callback per close", p.pos(closeFn.Pos()), !dup && len(cbs) > 0, true, "")
 	// the status enqueued is streamClosed
 	okStatus := false
-	for _, si := range findInstrs(closeFn, mStoreWord("queueElement.status")) {
-		if c, ok := constInt(si.(*ssa.Store).Val); ok && c == stClosed {
-			okStatus = true
+	for _, g := range p.family(closeFn) {
+		for _, si := range findInstrs(g, mStoreWord("queueElement.status")) {
+			if c, ok := constInt(si.(*ssa.Store).Val); ok && c == stClosed {
+				okStatus = true
+			}
 		}
 	}
 	r.ob("R10.3", "(*Stream).close: the queue element announces streamClosed", p.pos(closeFn.Pos()), okStatus, true, "")
@@ -330,7 +340,7 @@ func runC10(p *P, r *R) {
 			}
 			r.ob("R10.6", "(*Stream).Flush: "+what+" only when the stream is open", p.ipos(in), ok, true, "after Close every later operation fails with a closed-stream error")
 		}
-		for _, ci := range findInstrs(fl, p.mCall(prodNames...)) {
+		for _, ci := range findInstrs(fl, p.mPutFamily()) {
 			check(ci, "enqueues")
 		}
 		for _, ci := range findInstrs(fl, p.mCall("(*Stream).writeFallback")) {
